@@ -3,6 +3,7 @@ from __future__ import annotations
 
 import json
 import random
+import re
 from fractions import Fraction
 
 from .. import common as cm
@@ -136,7 +137,9 @@ def _pick_unit(rng, arr, allow_scaled=True):
         return 'scaled'
     if r < 0.45:
         return None
-    return rng.choice(ALL_UNITS)
+    if r < 0.7:
+        return rng.choice(ALL_UNITS)
+    return gen_unit_expr(rng)
 
 
 def _gen_box(rng):
@@ -170,10 +173,14 @@ def gen_uc(rng):
             'form': rng.choice(['ndarray', 'ndarray', 'python', 'fview'])}
 
 
+def _len_unit(rng):
+    return gen_dim_unit(rng, 'length') if rng.random() < 0.45 else rng.choice(UNITS['length'] + [None])
+
+
 def gen_box(rng):
     w1, w2 = _gen_cfgs(rng)
     return {'kind': 'box', 'via': rng.choice(['tree', 'json', 'xml']), 'w1': w1, 'w2': w2,
-            'unit': rng.choice(UNITS['length'] + [None]), 'box': _gen_box(rng)}
+            'unit': _len_unit(rng), 'box': _gen_box(rng)}
 
 
 def _gen_props(rng, natoms, ntypes):
@@ -181,7 +188,8 @@ def _gen_props(rng, natoms, ntypes):
     atype[rng.randrange(natoms)] = ntypes
     pos = _gen_arr(rng, [natoms], dt='f', trailing=[3])
     props = [{'name': 'atype', 'unit': None, 'dt': 'i', 'shape': [natoms], 'data': atype},
-             dict(pos, name='pos', unit=rng.choice([None, 'scaled', 'scaled', 'angstrom', 'nm', 'm']))]
+             dict(pos, name='pos', unit=rng.choice([None, 'scaled', 'scaled', 'angstrom', 'nm', 'm',
+                                                    gen_dim_unit(rng, 'length'), gen_dim_unit(rng, 'length')]))]
     names = ['charge', 'tag', 'n', 'stress', 'vel', 'disp', 'label', 'T', 'spin']
     rng.shuffle(names)
     for name in names[:rng.randint(0, 4)]:
@@ -227,7 +235,7 @@ def gen_sys(rng):
     else:
         masses = [rng.uniform(1, 200) for _ in range(rng.randint(0, natS))]
     return {'kind': 'sys', 'via': rng.choice(['tree', 'json', 'xml']), 'w1': w1, 'w2': w2,
-            'box': _gen_box(rng), 'box_unit': rng.choice(UNITS['length'] + [None]),
+            'box': _gen_box(rng), 'box_unit': _len_unit(rng),
             'pbc': [rng.random() < 0.6 for _ in range(3)], 'symbols': symbols, 'masses': masses,
             'natoms': natoms, 'props': props,
             'call': rng.choice(['prop_unit', 'prop_unit', 'lists', 'default']),
@@ -313,24 +321,195 @@ def _units_of(case):
     return us
 
 
+# ---- unit expressions: an evaluator that shares nothing with uc.parse ------------------------------------
+#   expr    := power (('*' | '/') power)*        left to right, '*' and '/' of equal precedence
+#   power   := primary ('^' number)?             binds tighter than '*' '/'
+#   primary := NAME | number | '(' expr ')'
+_TOK = re.compile(r'\s*(?:([A-Za-z_][A-Za-z_0-9]*)|(-?(?:[0-9]+\.?[0-9]*|\.[0-9]+))|([*/^()]))')
+
+
+def unit_ast(u):
+    """abstract syntax of a unit expression with the standard precedence (see grammar above)."""
+    toks, i = [], 0
+    u = u.rstrip()
+    while i < len(u):
+        m = _TOK.match(u, i)
+        if m is None:
+            raise ValueError(f'unit expression outside the harness grammar: {u!r}')
+        toks.append(('name', m.group(1)) if m.group(1) else ('num', m.group(2)) if m.group(2) else ('op', m.group(3)))
+        i = m.end()
+    pos = [0]
+
+    def peek():
+        return toks[pos[0]] if pos[0] < len(toks) else (None, None)
+
+    def primary():
+        k, v = peek()
+        pos[0] += 1
+        if k == 'name':
+            return ('name', v)
+        if k == 'num':
+            return ('num', float(v))
+        if (k, v) == ('op', '('):
+            e = expr()
+            if peek() != ('op', ')'):
+                raise ValueError(f'unbalanced parentheses in {u!r}')
+            pos[0] += 1
+            return e
+        raise ValueError(f'unit expression outside the harness grammar: {u!r}')
+
+    def power():
+        b = primary()
+        if peek() == ('op', '^'):
+            pos[0] += 1
+            k, v = peek()
+            if k != 'num':
+                raise ValueError(f'exponent is not a number in {u!r}')
+            pos[0] += 1
+            return ('pow', b, float(v))
+        return b
+
+    def expr():
+        e = power()
+        while peek() in (('op', '*'), ('op', '/')):
+            op = peek()[1]
+            pos[0] += 1
+            e = ('mul' if op == '*' else 'div', e, power())
+        return e
+
+    e = expr()
+    if pos[0] != len(toks):
+        raise ValueError(f'unit expression outside the harness grammar: {u!r}')
+    return e
+
+
+def eval_ast(e, env):
+    """(value, relative rounding bound in units of 2^-53) of the expression over `env(name)`."""
+    k = e[0]
+    if k == 'name':
+        return float(env(e[1])), 0.0
+    if k == 'num':
+        return e[1], 0.0
+    if k == 'pow':
+        b, eb = eval_ast(e[1], env)
+        return b ** e[2], abs(e[2]) * eb + 2.0
+    a, ea = eval_ast(e[1], env)
+    b, eb = eval_ast(e[2], env)
+    return (a * b if k == 'mul' else a / b), ea + eb + 1.0
+
+
+def _live(name):
+    import numericalunits as nu
+    return getattr(nu, name)
+
+
 def own_factor(u):
     """factor of the unit expression `u` under the *current* working units, evaluated here over the live
-    numericalunits attributes (names, numbers, `^` first, then `*` `/` left to right: the grammar of the
-    parenthesis-free expressions in UNITS) - independent of uc.parse / uc.unit, so a stale or cached factor
-    inside atomman cannot hide behind the harness measuring factors with the same function."""
-    import re
-    import numericalunits as nu
-    toks = re.findall(r'[A-Za-z_][A-Za-z_0-9]*|-?[0-9.]+|[*/^]', u)
-    if ''.join(toks) != u.replace(' ', ''):
-        raise ValueError(f'unit expression outside the harness grammar: {u!r}')
-    terms = [t if t in '*/^' else (float(getattr(nu, t)) if t[0].isalpha() or t[0] == '_' else float(t)) for t in toks]
-    while '^' in terms:
-        c = terms.index('^')
-        terms[c - 1:c + 2] = [terms[c - 1] ** terms[c + 1]]
-    val = terms[0]
-    for op, x in zip(terms[1::2], terms[2::2]):
-        val = val * x if op == '*' else val / x
-    return val
+    numericalunits attributes with the standard precedence - independent of uc.parse / uc.unit, so neither a stale
+    or cached factor nor a parser that orders the operators differently can hide behind the harness measuring
+    factors with the same function."""
+    return eval_ast(unit_ast(u), _live)[0]
+
+
+def unit_ulps(u):
+    """bound (in units of 2^-53, relative) on the difference between two correctly rounded evaluations of `u`
+    that associate the operators differently."""
+    if u is None or u == 'scaled':
+        return 0.0
+    return eval_ast(unit_ast(u), lambda n: 1.0)[1]
+
+
+# ---- generation of compound unit expressions -----------------------------------------------------------------
+UNIT_NAMES = ['angstrom', 'nm', 'm', 'cm', 'pm', 'GPa', 'MPa', 'bar', 'eV', 'J', 'mJ', 'mol', 'nN', 'e', 'C',
+              'amu', 'g', 'kg', 'ps', 's', 'fs', 'ns']
+_SNAP = {}
+
+
+def _snapshots():
+    """name -> value tables of every configuration (only to keep generated factors in a sane range)."""
+    if not _SNAP:
+        import numericalunits as nu
+        try:
+            for c in CONFIGS:
+                set_cfg(c)
+                _SNAP[c] = {n: float(getattr(nu, n)) for n in UNIT_NAMES}
+        finally:
+            restore_units()
+    return _SNAP
+
+
+def _sane(u):
+    for tab in _snapshots().values():
+        try:
+            v = eval_ast(unit_ast(u), tab.__getitem__)[0]
+        except (OverflowError, ZeroDivisionError):
+            return False
+        if not (1e-90 < abs(v) < 1e90):
+            return False
+    return True
+
+
+def _sp(rng):
+    return ' ' if rng.random() < 0.12 else ''
+
+
+def _g_primary(rng, depth, names):
+    r = rng.random()
+    if depth > 0 and r < 0.22:
+        return '(' + _g_expr(rng, depth - 1, names) + ')'
+    if r < 0.28:
+        return rng.choice(['2', '0.5', '10', '1000'])
+    return rng.choice(names)
+
+
+def _g_power(rng, depth, names):
+    p = _g_primary(rng, depth, names)
+    if rng.random() < 0.3:
+        p += '^' + rng.choice(['2', '3', '-1', '-2', '0.5', '1'])
+    return p
+
+
+def _g_expr(rng, depth, names):
+    s = _g_power(rng, depth, names)
+    for _ in range(rng.choice([0, 1, 1, 2, 2, 3]) if depth < 2 else rng.choice([1, 2, 2, 3, 3, 4])):
+        a, b = _sp(rng), _sp(rng)
+        s += a + rng.choice('*/') + b + _g_power(rng, depth, names)
+    return s
+
+
+def gen_unit_expr(rng):
+    """a random compound unit expression: every order of '*' and '/', parentheses, powers, number literals."""
+    for _ in range(50):
+        u = _g_expr(rng, 2, UNIT_NAMES)
+        if re.search(r'[A-Za-z]', u) and _sane(u):
+            return u
+    return 'eV/angstrom^3*ps'
+
+
+def gen_dim_unit(rng, dim):
+    """a compound expression of the given dimension ('length' or 'pressure') built from templates in which a
+    cancelling factor X appears on either side of the base unit, in every operator order."""
+    L = lambda: rng.choice(UNITS['length'])   # noqa: E731
+    X = lambda: rng.choice(['ps', 'fs', 'eV', 'amu', 'GPa', 'e', 'nm', 'J', 's'])   # noqa: E731
+    for _ in range(50):
+        x = X()
+        if dim == 'length':
+            l1, l2 = L(), L()
+            u = rng.choice(['{l1}', '{l1}/{x}*{x}', '{x}*{l1}/{x}', '{l1}*{x}/{x}', '{x}/({x}/{l1})', '{l1}^3/{l2}^2',
+                            '({l1}*{x})/{x}', '{l1}^2/{l2}', '1/{l1}^-1', '{l1}/{l2}*{l2}', '2*{l1}/2',
+                            '{l1}/{x}^2*{x}*{x}', 'eV/GPa/{l1}^2', '(eV/GPa)^0.5/{l1}^0.5', '{l1}/({x}*{x})*{x}^2'])
+            u = u.format(l1=l1, l2=l2, x=x)
+        else:
+            p, l1, l2, l3 = rng.choice(UNITS['pressure'][:1] + ['MPa', 'bar']), L(), L(), L()
+            u = rng.choice(['{p}', 'eV/{l1}^3', 'nN/{l1}^2', 'nN/{l1}/{l2}', '{p}/{x}*{x}', 'J/{l1}^2/{l2}',
+                            'eV/({l1}*{l2}*{l3})', 'eV/{l1}^3*{x}/{x}', '{x}*{p}/{x}', 'J/m^3*{l1}/{l2}',
+                            '({p})', '{p}*({x}/{x})', 'nN*{l1}/{l2}^3', 'eV/{l1}^2*{l2}^-1'])
+            u = u.format(p=p, l1=l1, l2=l2, l3=l3, x=x)
+        if rng.random() < 0.1:
+            u = u.replace('*', ' * ').replace('/', ' / ')
+        if _sane(u):
+            return u
+    return 'angstrom' if dim == 'length' else 'GPa'
 
 
 def _factors(case):
@@ -484,11 +663,14 @@ def run_real(case) -> RealRun:
 # ----------------------------------------------------------------------------------------
 # request line for the Lean driver
 # ----------------------------------------------------------------------------------------
+SPACE = '%'       # a blank inside a unit expression, on the request line (decoded by the driver)
+
+
 def _u(unit, fW, fR, name=None):
     eu = eff_unit(name, unit) if name else unit
     a = fW.get(eu, 1.0)
     b = fR.get(eu, 1.0)
-    return f"{unit if unit is not None else '-'} {cm.fr(a)} {cm.fr(b)}"
+    return f"{unit.replace(' ', SPACE) if unit is not None else '-'} {cm.fr(a)} {cm.fr(b)}"
 
 
 def _arr_tokens(a):
@@ -660,7 +842,14 @@ def same_sys(real, model, tol, loose_names, loose, out):
     same_atoms(real.atoms, m['atoms'], tol, loose_names, loose, 'atoms', out)
 
 
-TOL = (2e-15, 0.0)
+TOL0 = 2e-15
+
+
+def _tol(case):
+    """relative tolerance of one case: 2e-15 for value/f and value*f, plus the bound on two correctly rounded
+    evaluations of the case's unit expressions that associate the operators differently (write and read side)."""
+    ulps = max([unit_ulps(u) for u in _units_of(case)] + [0.0])
+    return (TOL0 + 2 * ulps * 2.0 ** -53, 0.0)
 
 
 def _loose(case):
@@ -674,6 +863,7 @@ def _loose(case):
 def compare(case, r: RealRun, reply):
     """list of differences between the real run and the driver's reply."""
     out = []
+    TOL = _tol(case)
     if reply.startswith('err:'):
         return [f'model refused the request: {reply}']
     m = dict(parse_reply(reply))
@@ -862,6 +1052,7 @@ def oracle(ctx, case, r: RealRun):
             ctx.violate(f'{k}:{via}:{stage}-raises', f'{tag}: {stage} raised {e}', {'case': case})
             return False
     ok = True
+    rt = _tol(case)[0]
     if k == 'uc':
         u = case['unit']
         arr = case['arr']
@@ -870,13 +1061,13 @@ def oracle(ctx, case, r: RealRun):
             # so a length-1 vector is read back from XML text as a scalar.  Values are still checked.
             _xml_singleton(ctx, case, tag)
             arr = dict(arr, shape=[])
-        ok &= _check_array(ctx, f'uc:{via}', tag, case, r.read, arr, _ratio(r, u), 2e-15, 0,
+        ok &= _check_array(ctx, f'uc:{via}', tag, case, r.read, arr, _ratio(r, u), rt, 0,
                            keep_dtype=u is None)
         if ok and u not in (None, 'scaled') and case['arr']['dt'] != 's':
             # the physical value (expressed in the stored unit) is the same under both configurations
             phys = np.asarray(r.read, dtype=float).flatten() / r.fR[u]
             for g, o in zip(phys.tolist(), case['arr']['data']):
-                if not _expect_close(g, Fraction(o) / Fraction(r.fW[u]), 4e-15, 0):
+                if not _expect_close(g, Fraction(o) / Fraction(r.fW[u]), 2 * rt, 0):
                     ctx.violate(f'uc:{via}:physical', f'{tag}: value in {u} is {g!r} after reading, '
                                 f'{o / r.fW[u]!r} when written', {'case': case})
                     ok = False
@@ -887,12 +1078,12 @@ def oracle(ctx, case, r: RealRun):
         for name, got, orig in (('vects', r.read.vects, case['box']['vects']), ('origin', r.read.origin, [case['box']['origin']])):
             flat = [x for row in orig for x in row]
             ok &= _check_array(ctx, f'box:{via}:{name}', f'{tag} box {name}', case, np.asarray(got).flatten(),
-                               {'dt': 'f', 'shape': [len(flat)], 'data': flat}, rb, 2e-15, 0, False)
+                               {'dt': 'f', 'shape': [len(flat)], 'data': flat}, rb, rt, 0, False)
         return ok
     if k == 'ec':
         rc = _ratio(r, case['unit'])
         ok &= _check_array(ctx, f'ec:{via}', f"{tag} Cij ({case['cs']})", case, r.read.Cij,
-                           {'dt': 'f', 'shape': [6, 6], 'data': r.extra['normC']}, rc, 4e-15, 0, False)
+                           {'dt': 'f', 'shape': [6, 6], 'data': r.extra['normC']}, rc, 2 * rt, 0, False)
         return ok
     atoms = r.read if k == 'atoms' else r.read.atoms
     loose = _loose(case)
@@ -902,9 +1093,9 @@ def oracle(ctx, case, r: RealRun):
         rL = _ratio(r, bu)
         flatv = [x for row in case['box']['vects'] for x in row]
         ok &= _check_array(ctx, f'sys:{via}:cell', f'{tag} cell', case, r.read.box.vects.flatten(),
-                           {'dt': 'f', 'shape': [9], 'data': flatv}, rL, 2e-15, 0, False)
+                           {'dt': 'f', 'shape': [9], 'data': flatv}, rL, rt, 0, False)
         ok &= _check_array(ctx, f'sys:{via}:origin', f'{tag} origin', case, r.read.box.origin,
-                           {'dt': 'f', 'shape': [3], 'data': case['box']['origin']}, rL, 2e-15, 0, False)
+                           {'dt': 'f', 'shape': [3], 'data': case['box']['origin']}, rL, rt, 0, False)
         pbc = r.read.pbc
         if pbc.dtype.kind != 'b' or [bool(b) for b in pbc] != case['pbc']:
             ctx.violate(f'sys:{via}:pbc', f"{tag}: pbc {pbc!r} read back, {case['pbc']} written", {'case': case})
@@ -945,7 +1136,7 @@ def oracle(ctx, case, r: RealRun):
                                p, rL, loose[0], loose[1] * max(1.0, float(rL)), False)
         else:
             ok &= _check_array(ctx, f"{k}:{via}:property", f"{tag} property {p['name']} (unit {eu})", case,
-                               atoms.view[p['name']], p, _ratio(r, eu), 2e-15, 0, keep_dtype=eu is None)
+                               atoms.view[p['name']], p, _ratio(r, eu), rt, 0, keep_dtype=eu is None)
     return ok
 
 
